@@ -45,6 +45,16 @@ def cases(draw, tier):
     return c
 
 
+@st.composite
+def hollow(draw, tier):
+    """Inputs with coordinates stored above empty segments (gen.hollow_cases): assemble must reach the same structure as
+    evaluate by walking the operands, not by assuming that a stored coordinate has something below it."""
+    c = draw(gen.hollow_cases())
+    c["capacity"] = draw(st.sampled_from([1, 2, None]))
+    c["revaluations"] = [{nm: [draw(st.integers(-8, 8)) / 2 for _ in s["vals"]] for nm, s in c["inputs"].items()}]
+    return c
+
+
 def check(case, ctx=None):
     labels = set(gen.case_features(case))
     fails, info = kprops.assemble_compute_history(case, case.get("capacity"), case.get("revaluations", []))
@@ -62,7 +72,7 @@ def check(case, ctx=None):
     return result(fails, labels, nontrivial, kcheck.case_id(case), s, {"computes": info.get("computes", 0)})
 
 
-STREAMS = {"main": {"strategy": cases, "check": check}}
+STREAMS = {"main": {"strategy": cases, "check": check}, "hollow": {"strategy": hollow, "check": check}}
 
 
 def shrink_case(case, bucket):
@@ -90,3 +100,4 @@ def replay(payload):
 def run(chk):
     n = 800 if chk.tier == "quick" else 16000
     chk.absorb(run_stream(__name__, "main", chk.tier, chk.seed, n), shrink=shrink_case)
+    chk.absorb(run_stream(__name__, "hollow", chk.tier, chk.seed, n // 4), shrink=shrink_case)
